@@ -166,7 +166,7 @@ def reuseStats (evs : Array Ev) : Nat × Nat :=
 
 def bucket (k : Nat) : String := if k = 0 then "0" else if k = 1 then "1" else if k ≤ 3 then "2-3" else "4+"
 
-def handle (c : Case) : Res := Id.run do
+def handleAll (c : Case) : Res := Id.run do
   let n := c.pNat "n"; let nsteps := c.pNat "nsteps"
   let colptr := c.nat "A.colptr"; let rowind := c.nat "A.rowind"
   let eps := epsOf c
@@ -348,5 +348,16 @@ def handle (c : Case) : Res := Id.run do
                         s!"trans-kinds={transSeen.length}", if nResync > 0 then "resynced" else "chain-exact",
                         s!"abandonEvents={bucket nAbandonEv}", s!"keptEvents={bucket nKeptEv}", s!"exactSteps={bucket nExactSteps}"]
   return Res.ok (n ≥ 2 ∧ nsteps ≥ 2 ∧ (nSameRow + nSamePat + nFactored) ≥ 1) tags (if allExact then "exact" else "tolerance")
+
+
+/-- `p only struct` (property C03 runs the histories for the structure of the returned factors only): a verdict
+other than a structure clause is left to C06 -/
+def handle (c : Case) : Res :=
+  let r := handleAll c
+  if c.p "only" "" == "struct" then
+    if r.status == "prop-false" ∧ (r.msg.splitOn "structure:").length > 1 then r
+    else if r.status == "prop-false" ∨ r.status == "corr-mismatch" then Res.ok true r.tags "struct-only"
+    else r
+  else r
 
 end Slu.Drv.History
